@@ -86,7 +86,7 @@ LAYER_I = {'C13': ('A,C', ['bid128_is_signed', 'bid128_is_nan', 'bid128_is_inf',
            'C18': ('T', ['bid128_total_order', 'bid128_total_order_mag']),
            'C11': ('D,F,I', ['bid128_scalbln', 'bid128_scalbn', 'bid128_ldexp', 'bid_get_BID128', 'bid128_frexp']),
            'C19': ('E', ['bid_to_dpd128', 'bid_dpd_to_bid128']),
-           'C03': ('G', ['bid128_quiet_greater', 'bid128_quiet_greater_equal', 'bid128_quiet_greater_unordered', 'bid128_quiet_less',
+           'C03': ('G,K', ['bid128_quiet_equal', 'bid128_quiet_not_equal', 'bid128_quiet_greater', 'bid128_quiet_greater_equal', 'bid128_quiet_greater_unordered', 'bid128_quiet_less',
                          'bid128_quiet_less_equal', 'bid128_quiet_less_unordered', 'bid128_quiet_not_greater', 'bid128_quiet_not_less',
                          'bid128_quiet_ordered', 'bid128_quiet_unordered', 'bid128_signaling_greater', 'bid128_signaling_greater_equal',
                          'bid128_signaling_greater_unordered', 'bid128_signaling_less', 'bid128_signaling_less_equal',
@@ -100,4 +100,6 @@ LAYER_I['C17'] = ('N', ['bid128_nextup', 'bid128_nextdown'])
 for _k, _v in LAYER_I.items(): PROPS[_k]['layerI'] = _v
 # partial theorems (a stated sub-domain only) are obligations of the thorough tier
 PROPS['C17']['layerI_thorough'] = ('NP', ['bid128_nextafter', 'bid128_nexttoward'])
-PROPS['C06']['layerI_thorough'] = ('J', ['bid128_to_int32_rnint'])
+PROPS['C06']['layerI_thorough'] = ('J', ['bid128_to_int32_rnint', 'bid128_to_int32_rninta'])     # complete theorems, 3-4 min each: thorough tier
+PROPS['C16']['layerI_thorough'] = ('M', ['bid128_minnum', 'bid128_maxnum', 'bid128_minnum_mag', 'bid128_maxnum_mag'])   # complete theorems, 12 CPU-minutes
+PARTIAL_LAYER_I = {'bid128_nextafter', 'bid128_nexttoward'}
